@@ -470,12 +470,7 @@ func (in *inliner) simpleBody(fd *ast.FuncDecl, f *types.Func, anyReturns bool) 
 		return false
 	}
 	if anyReturns {
-		// the multi-return expansions substitute parameters: they need them unassigned
-		for p := range params {
-			if assignedIn(in.info, fd.Body, p) {
-				return false
-			}
-		}
+		// (parameters the callee assigns are bound by p := arg in the multi-return expansions, never substituted)
 		return true
 	}
 	if nret > 1 {
@@ -2483,11 +2478,6 @@ func (in *inliner) guarded(as *ast.AssignStmt, ifs *ast.IfStmt, within *types.Fu
 	if !okBody || nret < 2 || len(fd.Body.List) == 0 {
 		return nil, false
 	}
-	for p := range params {
-		if assignedIn(in.info, fd.Body, p) {
-			return nil, false
-		}
-	}
 	// an early success return `if c { …; return X, true }` followed by more statements is the same as putting those
 	// statements into the else branch; afterwards every success return must be in tail position (nothing of h runs after it),
 	// where it can be replaced by the assignment of its results
@@ -2555,7 +2545,7 @@ func (in *inliner) guarded(as *ast.AssignStmt, ifs *ast.IfStmt, within *types.Fu
 		if p.Name() == "_" || p.Name() == "" {
 			return
 		}
-		if in.simpleArg(arg) && in.stableIn(arg, fd.Body) {
+		if in.simpleArg(arg) && in.stableIn(arg, fd.Body) && !assignedIn(in.info, fd.Body, p) {
 			subst[p] = arg
 			return
 		}
@@ -2786,7 +2776,7 @@ func (in *inliner) expandMulti(as *ast.AssignStmt, call *ast.CallExpr, fd *ast.F
 		if p.Name() == "_" || p.Name() == "" {
 			return
 		}
-		if in.simpleArg(arg) && !inClosure[p] && in.stableIn(arg, fd.Body) {
+		if in.simpleArg(arg) && !inClosure[p] && in.stableIn(arg, fd.Body) && !assignedIn(in.info, fd.Body, p) {
 			subst[p] = arg
 			return
 		}
